@@ -241,6 +241,12 @@ func (s *GenSource) genEVMTx(w *World, op string) *txSpec {
 		sp.typ = ctypes.TRX_CONTRACT
 		sp.to = make([]byte, 20)
 		sp.payload = &ctypes.TrxPayloadContract{Data: prog.deployCode()}
+		if pct(t, 10, "codelessDeploy") {
+			// a creation that succeeds and leaves no code behind: no init code at all, STOP, RETURN(0,0), a constructor
+			// that self-destructs (to the sender / into itself)
+			sp.payload = &ctypes.TrxPayloadContract{Data: unhx(pick(t, []string{"", "00", "60006000f3", "33ff", "30ff", "6000600055"}, "codelessInit"))}
+			prog = &Program{}
+		}
 		if pct(t, 35, "deployValue") {
 			sp.amount = u256(uint64(1 + unif(t, 100000, "deployVal")))
 		}
